@@ -286,10 +286,12 @@ class Base:
                 annotations = self.annotations if not args or not any(self is arg for arg in args) else ()
             else:
                 annotations = simplified.annotations
+        # a leaf gets its variables/symbolic flag from the node it copies: the simplified result when there is one
+        # (self may be any argument, e.g. a constant), otherwise self
         if variables is None and op in all_operations:
-            variables = self.variables
+            variables = self.variables if simplified is None else simplified.variables
         if symbolic is None and op in all_operations:
-            symbolic = self.symbolic
+            symbolic = self.symbolic if simplified is None else simplified.symbolic
 
         return type(self)(
             op,
